@@ -3,11 +3,12 @@ VARIANT ?= asan
 HV ?= $(VARIANT)
 CXX ?= clang++
 CC ?= clang
-B := /verif/build
+VDIR ?= /verif
+B := $(VDIR)/build
 OD := $(B)/h-$(HV)
 CFGDIR ?= $(B)/cfg
 REPO ?= /repo
-CXXFLAGS := -std=c++17 -Wall -Wextra -Wno-unused-parameter -Wno-missing-field-initializers -Wno-unused-function $(HFLAGS) -I/verif/sim -I$(CFGDIR) -I$(REPO)
+CXXFLAGS := -std=c++17 -Wall -Wextra -Wno-unused-parameter -Wno-missing-field-initializers -Wno-unused-function $(HFLAGS) -I$(VDIR)/sim -I$(CFGDIR) -I$(REPO)
 
 SIM_SRCS := $(wildcard sim/*.cpp)
 PROP_SRCS := $(wildcard props/*.cpp)
